@@ -72,6 +72,11 @@ pub enum TopOp
     /// `EntityCommands::syscall` (false) / `EntityCommands::syscall_once` (true) on a plain entity + flush: the same
     /// keys as the `Commands` versions
     EntCmdSyscall(u32, bool),
+    /// `World::syscall(x, unit_sys)`: the very key `Commands::syscall(x, unit_sys)` uses (one state per function type,
+    /// whatever the entry point)
+    WorldUnitSyscall(u32),
+    /// free function `spawned_syscall(world, id, x)` on a unit-spawned slot: same state as `Commands::spawned_syscall`
+    WorldUnitSpawned(u8, u32),
 }
 
 #[derive(Debug, Clone, PartialEq, Eq, Hash, Serialize, Deserialize, Default)]
@@ -517,6 +522,26 @@ fn run_inner(case: &SysCase, out: &mut SysOutcome)
                 else { model.unit_count += 1; model.effects.push(ExpEffect::Unit(*x, model.unit_count)); }
                 model.hit("C17:entity_commands_syscall");
             }
+            TopOp::WorldUnitSyscall(x) =>
+            {
+                world.syscall(*x, unit_sys);
+                model.unit_count += 1;
+                model.effects.push(ExpEffect::Unit(*x, model.unit_count));
+                model.hit("C17:one_key_two_entry_points");
+            }
+            TopOp::WorldUnitSpawned(slot, x) =>
+            {
+                if !model.unit_slots.is_empty()
+                {
+                    let k = *slot as usize % model.unit_slots.len();
+                    let id = ST.with(|s| s.borrow().unit_slots[k]);
+                    let r = spawned_syscall::<In<u32>, ()>(&mut world, id, *x);
+                    if r.is_err() { out.violations.push(format!("op {i}: spawned_syscall on a live spawned system returned an error")); }
+                    model.unit_slots[k] += 1;
+                    model.effects.push(ExpEffect::UnitSpawned(*x, model.unit_slots[k]));
+                    model.hit("C17:one_key_two_entry_points");
+                }
+            }
             TopOp::CmdSpawned(slot, x) =>
             {
                 if !model.unit_slots.is_empty()
@@ -613,8 +638,10 @@ pub fn decode(bytes: &[u8], max_ops: usize) -> SysCase
     let mut case = SysCase::default();
     for _ in 0..n
     {
-        let op = match d.below(18)
+        let op = match d.below(20)
         {
+            18 => { d.next_x += 1; TopOp::WorldUnitSyscall(d.next_x) }
+            19 => { d.next_x += 1; TopOp::WorldUnitSpawned(d.below(3) as u8, d.next_x) }
             17 => { d.next_x += 1; TopOp::EntCmdSyscall(d.next_x, d.byte() & 1 == 1) }
             12 => { let n = d.below(3) as u8; let f = d.f(); TopOp::RevokeNamed(n, f, d.byte() & 1 == 1) }
             13 => TopOp::SpawnRc(d.f()),
